@@ -388,6 +388,28 @@ def r_unreachable_lock_raise(ctx: Ctx, rule: str):
     rep.floor(rule, "_start_task calls in spawners", n, 3)
 
 
+def r_no_fake_cancellation(ctx: Ctx, rule: str):
+    """A spawner reads a CancelledError coming out of `_start_task` as "my group was cancelled" and abandons the rest of the
+    request.  So the pool itself must never raise CancelledError: the only source is a real cancellation delivered at a
+    suspension step (bare re-raises inside a handler that caught one are fine)."""
+    rep = ctx.rep
+    rep.rule(rule, "WHO(raise CancelledError in the pool classes and their helpers) is empty: CancelledError reaches a spawner only as a real "
+                   "cancellation of the spawner task (positive control: the spawners' `except CancelledError` handlers are found)")
+    bad = []
+    for f in [x for x in ctx.prog.all_functions() if ctx.in_pool(x) or x.module.name == "pool"]:
+        for n in ctx.distinct_sites(ctx.nodes(f, lambda n: n.op == "raise" and isinstance(n.ast, ast.Raise) and n.ast.exc is not None)):
+            classes = ctx.hier.resolve(n.func.module, n.ast.exc)
+            if any(c == CANCELLED or ctx.hier.is_sub(c, CANCELLED) for c in classes):
+                bad.append(n)
+    for n in bad:
+        rep.ob(rule, "the pool never raises CancelledError itself (a spawner would take it for the cancellation of its group and drop the rest of the request)",
+               False, node=n)
+    handlers = [h for name in SPAWNERS for f in ctx.pool_funcs(name, required=False)
+                for h in ctx.distinct_sites(ctx.nodes(f, lambda n: n.op == "handler" and any(t == CANCELLED for t in n.types)))]
+    rep.floor(rule, "positive control: `except CancelledError` handlers of the spawners", len(handlers), 3)
+    rep.ob(rule, "no explicit raise of CancelledError in the pool module", not bad, construct="raise CancelledError sites = %d" % len(bad))
+
+
 def r_spawner_group(ctx: Ctx, rule: str):
     rep = ctx.rep
     rep.rule(rule, "every task a spawner starts goes into the spawner's own group: the group_name handed to _start_task is the spawner's group_name parameter")
